@@ -618,13 +618,36 @@ func (ex *Exec) eqVal(a, b *Val) string {
 				case "any":
 					// an empty interface is nil exactly when it holds no dynamic type
 					return eq(c.kid("tag").S, "0")
-				case "slice":
-					ex.eng.smt.addAx(r, implies(r, eq(c.kid("len").S, "0")))
-					ex.eng.smt.addAx(r, implies("(> "+c.kid("len").S+" 0)", not(r)))
-					return r
-				case "map":
-					ex.eng.smt.addAx(r, implies(r, eq(c.kid("card").S, "0")))
-					return r
+				case "slice", "map":
+					// nil-ness is a fixed (uninterpreted) attribute of the container value, so that the code and a
+					// contract asking the same question get the same answer; a nil container is empty
+					var sorts, terms []string
+					var leaves func(v *Val)
+					leaves = func(v *Val) {
+						if v == nil || v.Sh == nil {
+							return
+						}
+						if v.Sh.IsLeaf() {
+							sorts = append(sorts, v.Sh.Leaf)
+							terms = append(terms, v.S)
+							return
+						}
+						for _, k := range v.Kids {
+							leaves(k)
+						}
+					}
+					leaves(c)
+					size := c.kid("len")
+					if c.Sh.Kind == "map" {
+						size = c.kid("card")
+					}
+					if len(terms) == 0 || size == nil {
+						ex.eng.smt.addAx(r, implies(r, eq(size.S, "0")))
+						return r
+					}
+					fname := "uf_isnil_" + smtName(strings.Join(sorts, "_"))
+					ex.eng.smt.declFun(fname, "(declare-fun "+fname+" ("+strings.Join(sorts, " ")+") Bool)")
+					return and("("+fname+" "+strings.Join(terms, " ")+")", eq(size.S, "0"))
 				}
 			}
 		}
